@@ -327,6 +327,98 @@ def exLx3 : Lx :=
 example : renderOk false [[97], [45], [98]] [[], [32, 32], [32]] = true ∧
     consumeName exLx3 = .ok (⟨.name, .name [97, 45, 98]⟩, { exLx3 with pos := 7 }) := by decide
 
+/-- `bound_name_whole_any_flags`: `bound_name_resolves` for EVERY setting of the lexer's flags — `unary_tests`,
+`between`, `type_name` (set by the parser at `between`, `instance of` / `:` / `<` / `,` / `->` and at the start of unary
+tests) do not enter `consume_name`'s choice of the name at all, and in `till_in` mode (set where the variable of for /
+some / every is expected) the bound name is returned whole as well, provided the word `in` is not a LATER part of the run
+of name parts other than right after the name (then `in` ends the variable, which is this name).  Besides the cursor only
+`till_in` may change; input, scope keys and the other flags are handed on as they were. -/
+theorem bound_name_whole_any_flags (l : Lx) (pre rest p0 : List Nat) (ps sps : List (List Nat))
+    (hinp : l.input = pre ++ (renderName (p0 :: ps) ([] :: sps) ++ rest)) (hpos : l.pos = pre.length)
+    (hok : renderOk false (p0 :: ps) ([] :: sps) = true) (hw : isWordPart p0 = true)
+    (hrest : notExtending rest)
+    (hnc : noCommentStart (renderName (p0 :: ps) ([] :: sps) ++ rest.take 1) = true)
+    (hamb : NoAmbiguousBlank l.input)
+    (hin : l.tillIn = true → ∀ st, collectParts l.input l.pos = .ok st →
+      (positionOfIn st.parts).filter (fun i => 0 < i) = none ∨ positionOfIn st.parts = some (ps.length + 1))
+    (hbound : l.keys.contains (nameNew (p0 :: ps)) = true)
+    (hlonger : ∀ st, collectParts l.input l.pos = .ok st →
+      ∀ j, ps.length + 1 < j → j ≤ st.parts.length → isKeyAt l.keys st.parts j = false) :
+    ∃ l', consumeName l = .ok (⟨.name, .name (nameNew (p0 :: ps))⟩, l') ∧
+      l'.pos = pre.length + (renderName (p0 :: ps) ([] :: sps)).length ∧
+      l'.input = l.input ∧ l'.keys = l.keys ∧ l'.start = l.start ∧
+      l'.unaryTests = l.unaryTests ∧ l'.between = l.between ∧ l'.typeName = l.typeName := by
+  have hamb' := hamb
+  rw [hinp] at hamb'
+  obtain ⟨st, hst, htake, hlast⟩ := collect_roundtrip pre rest p0 ps sps hok hw hrest hnc hamb'
+  rw [← hinp, ← hpos] at hst
+  have hlenle : ps.length + 1 ≤ st.parts.length := by
+    have := congrArg List.length htake
+    simp only [List.length_take, List.length_cons] at this
+    omega
+  have hkey : isKeyAt l.keys st.parts (ps.length + 1) = true := by
+    rw [key_lookup_is_name_new, htake]; exact hbound
+  have hpos1 : 1 ≤ (renderName (p0 :: ps) ([] :: sps)).length := by
+    have : p0 ≠ [] := by intro he; subst he; simp [isWordPart] at hw
+    cases p0 with
+    | nil => exact absurd rfl this
+    | cons c w => simp [renderName]
+  have harith : pre.length + (renderName (p0 :: ps) ([] :: sps)).length - 1 + 1 =
+      pre.length + (renderName (p0 :: ps) ([] :: sps)).length := by omega
+  -- the regular path: the `till_in` tweak does not apply
+  have regular : (l.tillIn = false ∨ (positionOfIn st.parts).filter (fun i => 0 < i) = none) →
+      ∃ l', consumeName l = .ok (⟨.name, .name (nameNew (p0 :: ps))⟩, l') ∧
+        l'.pos = pre.length + (renderName (p0 :: ps) ([] :: sps)).length ∧
+        l'.input = l.input ∧ l'.keys = l.keys ∧ l'.start = l.start ∧
+        l'.unaryTests = l.unaryTests ∧ l'.between = l.between ∧ l'.typeName = l.typeName := by
+    intro htill
+    obtain ⟨p, hp, hres⟩ := longest_match l st hst htill (ps.length + 1) (by omega) hlenle hkey (hlonger st hst)
+    simp only [Nat.add_sub_cancel] at hp
+    rw [hlast] at hp
+    cases hp
+    refine ⟨{ l with pos := pre.length + (renderName (p0 :: ps) ([] :: sps)).length - 1 + 1 }, ?_, ?_,
+      rfl, rfl, rfl, rfl, rfl, rfl⟩
+    · rw [hres, htake]; rfl
+    · simp only; omega
+  cases htl : l.tillIn with
+  | false => exact regular (Or.inl htl)
+  | true =>
+    rcases hin htl st hst with hnone | hsome
+    · exact regular (Or.inr hnone)
+    · -- the variable of for / some / every: the name lasts till `in`, which stands right after it
+      refine ⟨{ l with pos := pre.length + (renderName (p0 :: ps) ([] :: sps)).length - 1 + 1, tillIn := false }, ?_,
+        ?_, rfl, rfl, rfl, rfl, rfl, rfl⟩
+      · unfold consumeName
+        rw [hst]
+        unfold finishName
+        have h2 : (if l.tillIn = true then (positionOfIn st.parts).filter (fun i => 0 < i) else none) =
+            some (ps.length + 1) := by
+          simp [htl, hsome]
+        simp only [h2]
+        rw [if_neg (by omega)]
+        simp only [Nat.add_sub_cancel, hlast, htake]
+        rfl
+      · simp only; omega
+
+-- non-vacuity: every flag set, scope {a b}, input `a b - 1 and c`: the name `a b`, cursor at 3, the other flags untouched
+def exLx5 : Lx :=
+  { input := [97, 32, 98, 32, 45, 32, 49, 32, 97, 110, 100, 32, 99], pos := 0, start := none, unaryTests := true,
+    between := true, typeName := true, tillIn := true, keys := [[97, 32, 98]] }
+example : renderOk false [[97], [98]] [[], [32]] = true ∧
+    consumeName exLx5 = .ok (⟨.name, .name [97, 32, 98]⟩, { exLx5 with pos := 3 }) := by decide
+-- the variable of `for`: `a b in c` in `till_in` mode with `a b` bound: the same name, the mode ends
+def exLx6 : Lx := { exLx5 with input := [97, 32, 98, 32, 105, 110, 32, 99] }
+example : consumeName exLx6 = .ok (⟨.name, .name [97, 32, 98]⟩, { exLx6 with pos := 3, tillIn := false }) := by decide
+
+/-- The hypothesis about `in` is needed: in `till_in` mode a later `in` in the run of name parts cuts the run
+there WITHOUT the scope look-up (`a b - 1 in c` gives the name `a b-1` although only `a b` is bound) — the shape of
+the seeded change C10-18, which did the same for the flag `between` and the word `and`. The parser sets the mode only
+where the variable of for / some / every is expected, so no bound name is read in it unless it is that variable. -/
+theorem till_in_cuts_without_lookup :
+    consumeName { exLx5 with input := [97, 32, 98, 32, 45, 32, 49, 32, 105, 110, 32, 99] } =
+      .ok (⟨.name, .name [97, 32, 98, 45, 49]⟩,
+        { exLx5 with input := [97, 32, 98, 32, 45, 32, 49, 32, 105, 110, 32, 99], pos := 7, tillIn := false }) := by decide
+
 /-- `operator_when_unbound`: the word `w0` is bound (under its `Name::new` text), it is followed by optional white space and
 an additional symbol `sym` that stands alone (no `->`, `**`, `//`, `/*`, `..`, `.5`), and no
 longer prefix of the collected parts is bound.  Then `consume_name` returns the name `w0` with
